@@ -28,8 +28,6 @@ def oracle(case, obs):
     for out in ec.outs_of(obs):
         if out["state"] not in ("idle", "paused"):
             return "after %s() returned/raised the engine is in the transient state %r" % (out["action"], out["state"])
-        if out["kind"] == "raise" and out["exn"] == "TransitionError" and out["action"] in ("call", "resume"):
-            return "%s() raised TransitionError" % out["action"]
     return None
 
 
